@@ -13,10 +13,12 @@
    a node is listed only when its record differs from the one printed last for the same id in this
    case (delta dump), so a line is short while every op is still compared on the whole structure.
    A node reached twice in one walk prints "CYCLE" and ends the walk (only possible if rbt.c is broken). */
+#define _POSIX_C_SOURCE 200809L /* alarm(): a library loop that does not terminate must end the run, not hang the check */
 #include "a/rbt.h"
 #include <stdio.h>
 #include <stdlib.h>
 #include <string.h>
+#include <unistd.h>
 
 typedef struct
 {
@@ -133,6 +135,7 @@ int main(int argc, char *argv[])
     a_rbt_root(&root);
     while (fgets(line, sizeof(line), stdin))
     {
+        alarm(10); /* watchdog per input line: SIGALRM ends the process, the check restarts after the case */
         long key;
         int id;
         if (line[0] == 'H')
